@@ -40,11 +40,13 @@ type Ctx struct {
 	notes  []string
 	seen   map[string]int
 	tmplAll *TmplAll
+	prefix  string // prepended to construct keys (thorough tier: checked-in instance being analysed)
 	lexW    *lexWriter
 	parW    *parserWriter
 }
 
 func (c *Ctx) add(rule, construct string, st State, pos, reason string) *Obligation {
+	construct = c.prefix + construct
 	key := rule + " " + construct
 	if c.seen == nil {
 		c.seen = map[string]int{}
